@@ -84,6 +84,19 @@ Section ScanCover.
     - eapply IH; eassumption.
   Qed.
 
+  (* the same for a streaming decoder: however the bytes are cut into chunks, starting from the empty
+     buffer at offset 0, every byte is in one returned frame, skipped at a reachable Reject, or still
+     buffered (and then the buffer is exactly the remaining suffix, undecided) *)
+  Theorem feed_all_cover chunks fs off' r :
+    feed_all judge (0, []) chunks = (fs, (off', r)) ->
+    let s := concat chunks in
+    reach judge s off' /\ r = skipn off' s /\ judge r = More /\
+    forall p, p < off' -> skipped s p \/ in_frame fs p.
+  Proof.
+    intros E. rewrite (feed_all_concat judge OK) in E by (unfold wf_state; apply (j_nil judge OK)).
+    unfold feed in E. cbn [fst snd app] in E. apply scan_cover. exact E.
+  Qed.
+
 End ScanCover.
 
 (* instance for the FusionEngine wire format: a scan of any byte string accounts for every byte *)
@@ -94,3 +107,11 @@ Theorem fe_scan_cover eager cr mp s fs off' r :
   forall p, p < off' -> skipped (judge_fe eager cr mp) s p \/ in_frame fs p.
 Proof. apply scan_cover. apply judge_fe_ok. Qed.
 Print Assumptions fe_scan_cover.
+
+Theorem fe_feed_all_cover eager cr mp chunks fs off' r :
+  feed_all (judge_fe eager cr mp) (0, []) chunks = (fs, (off', r)) ->
+  let s := concat chunks in
+  reach (judge_fe eager cr mp) s off' /\ r = skipn off' s /\ judge_fe eager cr mp r = More /\
+  forall p, p < off' -> skipped (judge_fe eager cr mp) s p \/ in_frame fs p.
+Proof. apply feed_all_cover. apply judge_fe_ok. Qed.
+Print Assumptions fe_feed_all_cover.
